@@ -69,3 +69,7 @@ ALPHABETS = {
 }
 for _k, _g in ALPHABETS.items():
     assert len(_g) == _k and sorted(''.join(_g)) == sorted(AA20), _k
+
+# texts of phasePlotAnnotation (localCIDER documentation, region 1..5)
+REGION_TEXT = {1: 'Globule/Tadpole', 2: 'Boundary Region', 3: 'Coils,Hairpins and Chimeras', 4: 'Negatively Charged Swollen Coils',
+               5: 'Positively Charged Swollen Coils'}
